@@ -13,6 +13,29 @@ FC = 'moPepGen/parser/FusionCatcherParser.py'
 AR = 'moPepGen/parser/ArribaParser.py'
 
 
+class _File15b(T.TFile):
+    """counts the lines taken with next() so that a for-loop reader that also takes lines behind the back of its loop is noticed"""
+    def __init__(self, tab):
+        super().__init__(tab)
+        self.reads = 0
+
+    def sym_next(self, I, default):
+        self.reads += 1
+        return super().sym_next(I, default)
+
+
+def _first_loop_is_while(I, path, qualname):
+    import ast
+    fn = I.repo.function_node(path, qualname)[2]
+    for n in ast.walk(fn):
+        if isinstance(n, (ast.For, ast.While)):
+            break
+    else:
+        raise Unsupported(f'{qualname}: no loop over the lines of the table')
+    first = min((n for n in ast.walk(fn) if isinstance(n, (ast.For, ast.While))), key=lambda n: (n.lineno, n.col_offset))
+    return isinstance(first, ast.While)
+
+
 class _TableParser(Contract):
     """<tool>Parser.parse: every line of the tool output that is neither the header nor a comment yields exactly one record, in file order, and each
     field of the record is the column of that line the tool documentation gives it (numbers read as numbers, lists split at the documented separator);
@@ -30,7 +53,11 @@ class _TableParser(Contract):
     def setup(self, I):
         st = types.SimpleNamespace(yielded=[])
         st.tab = T.Table(I, self.NCOL, 'tool_output')
+        st.tab.file = _File15b(st.tab)
         st.args = [OpaqueStr(['fusions.tsv'])] if self.WHILE else [st.tab.file]
+        # the reader may be written as `while line: ... line = next(handle, None)` or as `for line in handle`: both are read with the same obligations
+        st.is_while = _first_loop_is_while(I, self.path, self.qualname)
+        st.pos0 = 0
         self._cur = st
         return st
 
@@ -52,13 +79,19 @@ class _TableParser(Contract):
     # -- while loops driven by next(handle, None)
     def havoc(self, I, env, k):
         st = self._cur
+        if not st.is_while:
+            return
         env.set('line', T.TLine(st.tab, k + self.HEADER_LINES))
         st.tab.file.pos = k + self.HEADER_LINES + 1
 
     def inv(self, I, env, k):
-        if not self.WHILE:
-            return []
         st = self._cur
+        if not st.is_while:
+            # for line in handle: the lines from the cursor on, one per iteration; only the header may have been taken before the loop
+            if isinstance(k, int) and k == 0:
+                st.pos0 = st.tab.file.pos
+                return [('exactly-the-header-lines-are-dropped-before-the-loop', z3.BoolVal(bool(isinstance(st.pos0, int) and st.pos0 == self.HEADER_LINES)))]
+            return []
         ln = env.lookup('line') if env.has('line') else None
         ok = isinstance(ln, T.TLine) and not ln.stripped and T.same(ln.k, T.zz(k) + self.HEADER_LINES)
         ok = ok and T.same(st.tab.file.pos, T.zz(k) + self.HEADER_LINES + 1)
@@ -66,20 +99,27 @@ class _TableParser(Contract):
 
     def head(self, I, env, k):
         self._cur.mark = len(self._cur.yielded)
+        self._cur.reads0 = self._cur.tab.file.reads
 
     def row_index(self, k):
-        return T.zz(k) + self.HEADER_LINES if self.WHILE else T.zz(k)
+        return T.zz(k) + self.HEADER_LINES
+
+    def stray_reads(self):
+        st = self._cur
+        if st.is_while or st.tab.file.reads == st.reads0:
+            return []
+        return [('no-line-is-taken-from-the-file-behind-the-back-of-the-for-loop', False)]
 
     def step(self, I, env, k):
         st = self._cur
         row = self.row_index(k)
         new = st.yielded[st.mark:]
         if not new:
-            return [('a-line-yields-nothing-only-as-a-comment', st.tab.comment(row))]
+            return self.stray_reads() + [('a-line-yields-nothing-only-as-a-comment', st.tab.comment(row))]
         if len(new) != 1 or not (isinstance(new[0], SymObj) and new[0].cls == 'Row15b'):
             return [('one-record-per-data-line', False)]
         r = new[0]
-        obl = [('a-comment-line-yields-no-record', z3.Not(st.tab.comment(row)))]
+        obl = self.stray_reads() + [('a-comment-line-yields-no-record', z3.Not(st.tab.comment(row)))]
         missing = [f for f in self.COLUMNS if f not in r.fields]
         obl.append(('every-field-of-the-record-is-given', z3.BoolVal(not missing)))
         for f, (col, kind) in self.COLUMNS.items():
@@ -88,11 +128,11 @@ class _TableParser(Contract):
         return obl
 
     def on_exit(self, I, env, k):
-        return [('all-lines-were-visited', self.row_index(k) >= self._cur.tab.n)] if self.WHILE else [('all-lines-were-visited', k == self._cur.tab.n)]
+        return [('all-lines-were-visited', self.row_index(k) >= self._cur.tab.n)]
 
     @property
     def loops(self):
-        return {0: LoopSpec(inv=self.inv, havoc=self.havoc if self.WHILE else None, on_head=self.head, step=self.step, target_after='unknown',
+        return {0: LoopSpec(inv=self.inv, havoc=self.havoc, on_head=self.head, step=self.step, target_after='unknown',
                             on_break=lambda I, env, k: [('every-line-is-visited', False)], on_exit=self.on_exit)}
 
 
@@ -168,7 +208,7 @@ class ArribaTable(_TableParser):
         if len(new) != 1 or not (isinstance(new[0], SymObj) and new[0].cls == 'Row15b'):
             return [('one-record-per-data-line', False)]
         pos, kw = new[0].fields['positional'], new[0].fields['keywords']
-        obl = [('a-comment-line-yields-no-record', z3.Not(st.tab.comment(T.zz(k)))),
+        obl = self.stray_reads() + [('a-comment-line-yields-no-record', z3.Not(st.tab.comment(T.zz(k)))),
                ('the-record-gets-the-30-columns-in-order', z3.BoolVal(len(pos) == 30 and not kw))]
         for col, v in enumerate(pos[:30]):
             name = ARRIBA_COLUMNS[col]
